@@ -392,7 +392,9 @@ def check_order_transparency(acc, inner, tier):
             wit = {"wrapper": "SingleAnnotatorWrapper", "inner": inner.name, "X": X.tolist(), "y": y.tolist(), "batch_size": k, "n_annotators_per_sample": nps, "A_perf": a_perf}
             rep = {"what": "saw", "inner": inner.name, "pool": "line4"}
             if o[0] != "ok":
-                acc.violation("SingleAnnotatorWrapper", "wrapper_fails", "%s" % (o[1],), wit, {}, rep, k)
+                partial = bool(any(np.isnan(y[i]).any() and not np.isnan(y[i]).all() for i in range(n)))
+                acc.violation("SingleAnnotatorWrapper", "wrapper_fails", "%s" % (o[1],), wit,
+                              {"inner": inner.name, "partially_labeled_candidate": partial, "inner_needs_unlabeled_candidates": not inner.arbitrary_idx}, rep, k)
                 continue
             np.random.seed(PR.GLOBAL_SEED)
             with warnings.catch_warnings():
